@@ -892,7 +892,7 @@ def retis_swap_zero(
     # shpt_copy2 = path_old1.phasepoints[0].copy()
     logger.info("Initial point is: %s", shpt_copy.order)
     # Propagate it backward in time:
-    path_tmp = path_old1.empty_path(maxlen=maxlen1 - 1)
+    path_tmp = path_old1.empty_path(maxlen=maxlen0 - 1)
     if allowed:
         logger.info("Propagating for [0^-]")
         engine0.propagate(path_tmp, ens_set0, shpt_copy, reverse=True)
@@ -1131,7 +1131,7 @@ def quantis_swap_zero(
     old_path0 = picked[-1]["traj"]
     old_path1 = picked[0]["traj"]
     maxlen0 = ens_set0["tis_set"]["maxlength"]
-    maxlen1 = ens_set0["tis_set"]["maxlength"]
+    maxlen1 = ens_set1["tis_set"]["maxlength"]
     lambda0 = ens_set0["interfaces"][-1]
 
     logger.info("Quantis swapping [0^-] <-> [0^+].")
